@@ -169,11 +169,30 @@ private:
     buffer_t _row_buffer;
 };
 
-template <typename View, typename D = void>
-struct row_buffer_helper_view : row_buffer_helper<typename View::value_type>
+/// The pixel type of a row as the codec delivers it: the samples come in the order of the color space,
+/// whatever the order of the channels in the memory of the destination view is (bgr, bgra, argb, ...).
+template <typename Pixel>
+struct color_space_ordered_pixel
 {
+    using type = Pixel;
+};
+
+template <typename Channel, typename ColorSpace, typename ChannelMapping>
+struct color_space_ordered_pixel<pixel<Channel, layout<ColorSpace, ChannelMapping>>>
+{
+    using type = pixel<Channel, layout<ColorSpace>>;
+};
+
+template <typename View, typename D = void>
+struct row_buffer_helper_view
+    : row_buffer_helper<typename color_space_ordered_pixel<typename View::value_type>::type>
+{
+    // A buffer of the view's own pixel type would reinterpret the codec's R,G,B samples in the
+    // memory order of the view: a tiff file read into a bgr view had red and blue exchanged.
+    using pixel_t = typename color_space_ordered_pixel<typename View::value_type>::type;
+
     row_buffer_helper_view(std::size_t width, bool in_bytes)
-        : row_buffer_helper<typename View::value_type>(width, in_bytes)
+        : row_buffer_helper<pixel_t>(width, in_bytes)
     {}
 };
 
